@@ -2,6 +2,7 @@
 # usage: verify_seed.sh <worktree> <seed-id>
 # Confirms a sub-agent's seeded change: tests pass with it, demo fails with it and passes without it.
 # Stores patch.diff + demo.py under /verif/seeded/<seed-id>/ and prints a summary.
+# (never uses `git stash`: the stash is shared by all worktrees of a repository)
 set -u
 WT=$1; ID=$2
 OUT=/verif/seeded/$ID
@@ -15,9 +16,9 @@ echo "--- tests with change"
 timeout 600 /venv/bin/python -m pytest -q -p no:cacheprovider -x 2>&1 | grep -E "passed|failed|error" | tail -1
 echo "--- demo with change"
 timeout 300 /venv/bin/python demo.py > $OUT/demo_with.log 2>&1; echo "exit=$?"; tail -3 $OUT/demo_with.log
-git stash -q
+git apply -R $OUT/patch.diff || { echo "cannot revert"; exit 3; }
 echo "--- demo without change"
 timeout 300 /venv/bin/python demo.py > $OUT/demo_without.log 2>&1; echo "exit=$?"; tail -2 $OUT/demo_without.log
-git stash pop -q
+git apply $OUT/patch.diff
 git status --short | head
 rm -f cobertura.xml .coverage
